@@ -1,3 +1,6 @@
+import cell_type_mapper.utils.verif_hooks as verif_hooks
+
+
 class DummyLock(object):
 
     def __enter__(self):
@@ -27,6 +30,9 @@ def winnow_process_list(
     for ii in range(len(process_list)-1, -1, -1):
         if process_list[ii].exitcode is not None:
             to_pop.append(ii)
+            if verif_hooks.on():
+                verif_hooks.emit('Poll', worker_pid=process_list[ii].pid,
+                                 code=process_list[ii].exitcode)
             if process_list[ii].exitcode != 0:
                 raise RuntimeError(
                     "One of the processes exited with code "
@@ -45,6 +51,9 @@ def winnow_process_dict(
     key_list = list(process_dict.keys())
     for k in key_list:
         if process_dict[k].exitcode is not None:
+            if verif_hooks.on():
+                verif_hooks.emit('Poll', worker_pid=process_dict[k].pid,
+                                 code=process_dict[k].exitcode, key=k)
             if process_dict[k].exitcode != 0:
                 raise RuntimeError(
                     f"One of the processes (key={k}) exited with code "
